@@ -242,7 +242,14 @@ async fn main() {
         }
         last_known_header
     } else {
-        validate_best_block_header(&derefed).await.unwrap()
+        let tip = validate_best_block_header(&derefed).await.unwrap();
+        // Persist our starting point. Otherwise, if the tower goes down before the first new block has been fully
+        // processed, it would start from whatever the best tip is by then, skipping blocks it has never processed.
+        dbm.lock()
+            .unwrap()
+            .store_last_known_block(&tip.header.block_hash())
+            .unwrap();
+        tip
     };
 
     // DISCUSS: This is not really required (and only triggered in regtest). This is only in place so the caches can be
